@@ -43,6 +43,8 @@ type HStep struct {
 	Data bool        `json:"data,omitempty"`
 	Unit ref.FeeUnit `json:"unit,omitempty"`
 	Tag  int         `json:"tag,omitempty"` // quote: FeeType field of the registered fee object (ref.FeeTag*)
+	Via   string      `json:"via,omitempty"`   // quote: the exported way the quote object is changed (ref.FeeQuoteEdit.Via)
+	Unit2 ref.FeeUnit `json:"unit2,omitempty"` // quote via unmarshal: new rate of the other type
 }
 
 // HistCase is a starting transaction (prior inputs P2PKH-funded), a starting quote, the steps.
@@ -58,6 +60,10 @@ func hFiller(n, salt int) []byte {
 		b[i] = byte(i*7 + salt*13 + 3)
 	}
 	return b
+}
+
+func hEdit(st HStep) ref.FeeQuoteEdit {
+	return ref.FeeQuoteEdit{Via: st.Via, Data: st.Data, Unit: st.Unit, Unit2: st.Unit2, Tag: st.Tag}
 }
 
 func hStepValid(st HStep) string {
@@ -201,11 +207,7 @@ func hModelEdit(m *ref.Tx, q *ref.FeeQuote, st HStep) bool {
 		sc[st.N] = byte(st.U64)
 		m.Out[i].Script = sc
 	case "quote":
-		if st.Data {
-			q.Data = st.Unit
-		} else {
-			q.Std = st.Unit
-		}
+		ref.FeeQuoteEditModel(q, hEdit(st))
 	default:
 		return false
 	}
@@ -213,7 +215,8 @@ func hModelEdit(m *ref.Tx, q *ref.FeeQuote, st HStep) bool {
 }
 
 // hLibEdit performs the same edit on the library objects, in place.
-func hLibEdit(tx *bt.Tx, fq *bt.FeeQuote, q ref.FeeQuote, m ref.Tx, st HStep) error {
+func hLibEdit(tx *bt.Tx, lq *ref.FeeQuoteLib, qBefore ref.FeeQuote, m ref.Tx, st HStep) error {
+	fq := lq.Q
 	nin, nout := len(tx.Inputs), len(tx.Outputs)
 	switch st.Kind {
 	case "query":
@@ -269,10 +272,8 @@ func hLibEdit(tx *bt.Tx, fq *bt.FeeQuote, q ref.FeeQuote, m ref.Tx, st HStep) er
 	case "obyte":
 		(*tx.Outputs[st.At%nout].LockingScript)[st.N] = byte(st.U64)
 	case "quote":
-		if st.Data {
-			fq.AddQuote(bt.FeeTypeData, ref.FeeLibFee(bt.FeeTypeData, st.Unit, q.DataRelay, st.Tag))
-		} else {
-			fq.AddQuote(bt.FeeTypeStandard, ref.FeeLibFee(bt.FeeTypeStandard, st.Unit, q.StdRelay, st.Tag))
+		if err := lq.Apply(&qBefore, hEdit(st)); err != nil {
+			return fmt.Errorf("updating the quote object (%s): %v", st.Via, err)
 		}
 	}
 	return nil
@@ -319,7 +320,12 @@ func checkHistory(ctx *pbt.Ctx, c HistCase) error {
 		return nil
 	}
 	tx := ref.ToLib(m)
-	fq := ref.FeeQuoteToLibTagged(q)
+	lq, err := ref.FeeQuoteBuild(q)
+	if err != nil {
+		return fmt.Errorf("building the quote object: %v", err)
+	}
+	fq := lq.Q
+	ctx.After(lq.Unmodified)
 	ctx.Labelf("steps=%d", len(c.Steps))
 	nFund := 0
 	prevKind, lastFund := "start", ""
@@ -356,7 +362,7 @@ func checkHistory(ctx *pbt.Ctx, c HistCase) error {
 			if prevKind == "start" {
 				jc = &pbt.Ctx{} // nothing precedes: this is the "fund" sub-check's own case
 			}
-			if err := judgeFund(jc, cc, want, tx, fq); err != nil {
+			if err := judgeFund(jc, cc, want, tx, lq); err != nil {
 				return fmt.Errorf("step %d of the history %s on one transaction object (%d inputs, %d outputs when Fund was called; earlier Fund in this history: %q): %v",
 					i+1, hKinds(c.Steps[:i+1]), len(snap.In), len(snap.Out), lastFund, err)
 			}
@@ -403,11 +409,12 @@ func checkHistory(ctx *pbt.Ctx, c HistCase) error {
 			tx = tx.Clone()
 			m = hCopyModel(ref.FromLib(tx))
 		default:
+			qBefore := q
 			if !hModelEdit(&m, &q, st) {
 				ctx.Label("step-skipped")
 				continue
 			}
-			if err := hLibEdit(tx, fq, q, m, st); err != nil {
+			if err := hLibEdit(tx, lq, qBefore, m, st); err != nil {
 				return err
 			}
 			switch st.Kind {
@@ -415,6 +422,7 @@ func checkHistory(ctx *pbt.Ctx, c HistCase) error {
 				sawInPlace = true
 			case "quote":
 				sawQuote = true
+				ctx.Label("quote-step:via=" + hEdit(st).Via)
 				if st.Tag == ref.FeeTagOther {
 					ctx.Label("quote-step:fee-type-field=other-type")
 				} else if st.Tag == ref.FeeTagEmpty {
@@ -502,6 +510,8 @@ func genHEdit(t *rapid.T, m ref.Tx) HStep {
 		st.Data = rapid.Bool().Draw(t, "data")
 		st.Unit = genUnit(t, "unit")
 		st.Tag = genFeeTag(t, "tag")
+		st.Via = genQuoteVia(t, "via")
+		st.Unit2 = genUnit(t, "unit2")
 	case "change":
 		st.Hash = gen.Bytes(t, 20, "chash")
 	}
@@ -514,6 +524,7 @@ func genHistCase(t *rapid.T) HistCase {
 	c.Tx.LockTime = rapid.SampledFrom([]uint32{0, 1, 500000000, 0xffffffff}).Draw(t, "locktime")
 	c.Quote = ref.FeeQuote{Std: genUnit(t, "std"), Data: genUnit(t, "data"), StdRelay: genUnit(t, "stdrelay"), DataRelay: genUnit(t, "datarelay"),
 		StdTag: genFeeTag(t, "stdtag"), DataTag: genFeeTag(t, "datatag")}
+	genQuoteBuild(t, &c.Quote)
 	nout := rapid.IntRange(0, 3).Draw(t, "nout")
 	for i := 0; i < nout; i++ {
 		s, v := genHOut(t)
